@@ -35,10 +35,17 @@ type c14GraphIn struct {
 
 func c14MkUnstructured(id object.ObjMetadata) *unstructured.Unstructured {
 	u := &unstructured.Unstructured{Object: map[string]any{}}
+	// the API version is no part of an object's identity: objects of one group and kind come in several versions (by name), the
+	// order must not depend on it
+	h := 0
+	for _, b := range []byte(id.Name) {
+		h += int(b)
+	}
+	ver := []string{"v1", "v2", "v1beta1"}[h%3]
 	if id.GroupKind.Group == "" {
-		u.SetAPIVersion("v1")
+		u.SetAPIVersion(ver)
 	} else {
-		u.SetAPIVersion(id.GroupKind.Group + "/v1")
+		u.SetAPIVersion(id.GroupKind.Group + "/" + ver)
 	}
 	u.SetKind(id.GroupKind.Kind)
 	u.SetName(id.Name)
